@@ -736,18 +736,26 @@ Inductive radius_for : radius_arg -> nat -> nat -> RAD -> Prop :=
 | raf_scalar : forall r n i, i < n -> radius_for (RadScalar r) n i r
 | raf_seq : forall l n i r, nth_error l i = Some r -> radius_for (RadSeq l) n i r.
 
-(* what the code hands to atom i as (d_sectors, s_sectors) *)
+(* what atom i receives as (d_sectors, s_sectors) when the arguments are lists *)
 Inductive sectors_for : dsec_arg -> ssec_arg -> nat -> nat -> sec_val -> sec_val -> Prop :=
 | sf_dlist : forall dl n i l, nth_error dl i = Some l -> i < n -> sectors_for (DsList dl) SsNone n i (SvList l) SvNone
-| sf_dint : forall z n i, i < n -> sectors_for (DsInt z) SsNone n i (SvScalar z) SvNone
 | sf_slist : forall d sl n i l, nth_error sl i = Some l -> i < n -> sectors_for d (SsList sl) n i SvNone (SvList l).
+
+(* list forms: d_sectors a list of lists (s_sectors None), or s_sectors a list of lists (d_sectors anything) *)
+Definition list_forms (d : dsec_arg) (s : ssec_arg) : Prop :=
+  match s with SsNone => exists dl, d = DsList dl | SsInt _ => False | SsList _ => True end.
 
 Definition sec_lengths_ok (d : dsec_arg) (s : ssec_arg) (natoms nr : nat) : Prop :=
   match s with
-  | SsNone => match d with DsInt _ => natoms | DsList l => length l end = nr /\ natoms = nr
+  | SsNone => match d with DsInt _ => False | DsList l => length l = nr /\ natoms = nr end
   | SsInt _ => False
   | SsList l => natoms = nr /\ length l = nr
   end.
+
+(* what the list-form theorems need of the normalisation statements *)
+Definition norm_list_ok (norm : @normaliser RV) : Prop :=
+  (forall n rs dl, norm n rs (ASeq dl) ANone = (ASeq dl, ASeq (repeat SvNone n))) /\
+  (forall n rs d sl, norm n rs d (ASeq sl) = (ASeq (repeat SvNone n), ASeq sl)).
 
 Lemma nth_error_repeat : forall A (x : A) n i, i < n -> nth_error (repeat x n) i = Some x.
 Proof. induction n; intros; [lia|]. destruct i; cbn; auto. apply IHn; lia. Qed.
@@ -758,129 +766,122 @@ Proof.
   split; auto. rewrite nth_error_repeat in H by auto. now inversion H.
 Qed.
 
-Theorem fanout_pruned_lemma : forall atnums (atcoords : list CT) radius (r_sectors : list (list RV)) d s rgrid rotate calls,
-  from_pruned_fanout default_params atnums atcoords radius r_sectors d s rgrid rotate = Some calls <->
-  length atnums = length atcoords /\ sec_lengths_ok d s (length atcoords) (length r_sectors) /\
-  length calls = length atnums /\
-  forall i a, nth_error atnums i = Some a ->
-    exists rad ra rs dd ss c,
-      nth_error calls i = Some (PrunedCall rad ra rs dd ss c rotate) /\
-      rgrid_for rgrid i a rad /\ radius_for radius (length atcoords) i ra /\
-      nth_error r_sectors i = Some rs /\ sectors_for d s (length atcoords) i dd ss /\
-      nth_error atcoords i = Some c.
+(* the part after the normalisation, for sequences d2 / s2 *)
+Lemma pruned_core_lemma : forall atnums (atcoords : list CT) (radius : radius_arg) (r_sectors : list (list RV)) d2 s2 rgrid rotate calls,
+  length atnums = length atcoords ->
+  (from_pruned_core default_params atnums atcoords radius r_sectors (ASeq d2) (ASeq s2) rgrid rotate = Some calls <->
+   length d2 = length r_sectors /\ length s2 = length r_sectors /\ length calls = length atnums /\
+   forall i a, nth_error atnums i = Some a ->
+     exists rad ra rs dd ss c,
+       nth_error calls i = Some (PrunedCall rad ra rs dd ss c rotate) /\
+       rgrid_for rgrid i a rad /\ radius_for radius (length atcoords) i ra /\
+       nth_error r_sectors i = Some rs /\ nth_error d2 i = Some dd /\ nth_error s2 i = Some ss /\
+       nth_error atcoords i = Some c).
 Proof.
-  intros. unfold from_pruned_fanout.
+  intros * El. unfold from_pruned_core. cbn [seq_of].
+  destruct (length d2 =? length r_sectors) eqn:E1; cbn [negb].
+  2:{ apply Nat.eqb_neq in E1. split; [discriminate|]. intros [H _]. contradiction. }
+  apply Nat.eqb_eq in E1.
+  destruct (length s2 =? length r_sectors) eqn:E2; cbn [negb].
+  2:{ apply Nat.eqb_neq in E2. split; [discriminate|]. intros [_ [H _]]. contradiction. }
+  apply Nat.eqb_eq in E2. rewrite mapM_seq. split.
+  - intros [Hl H]. repeat split; auto.
+    intros i a Ha. assert (Hi : i < length atnums) by (apply nth_error_Some; congruence).
+    destruct (H i Hi) as [y [Hy Hf]]. rewrite Ha in Hf.
+    destruct (pick_rgrid default_params rgrid i a) eqn:Er; [|discriminate].
+    destruct (nth_error (match radius with RadScalar r => repeat r (length atcoords) | RadSeq l => l end) i) eqn:Era; [|discriminate].
+    destruct (nth_error r_sectors i) eqn:Ers; [|discriminate].
+    destruct (nth_error d2 i) eqn:Ed; [|discriminate].
+    destruct (nth_error s2 i) eqn:Es; [|discriminate].
+    destruct (nth_error atcoords i) eqn:Ec; [|discriminate].
+    inversion Hf; subst y. do 6 eexists. split; [exact Hy|].
+    repeat split; auto.
+    + now apply pick_rgrid_iff.
+    + destruct radius; [apply nth_error_repeat_inv in Era as [? ->]; now constructor | now constructor].
+  - intros [_ [_ [Hl H]]]. split; auto. intros i Hi.
+    destruct (nth_error atnums i) as [a|] eqn:Ha. 2:{ apply nth_error_None in Ha. lia. }
+    destruct (H i a Ha) as (rad & ra & rs & dd & ss & c & Hn & Hr & Hra & Hrs & Hd & Hs & Hc).
+    eexists; split; [exact Hn|]. apply pick_rgrid_iff in Hr. rewrite Hr.
+    assert (Era : nth_error (match radius with RadScalar r => repeat r (length atcoords) | RadSeq l => l end) i = Some ra).
+    { inversion Hra; subst; [now apply nth_error_repeat | auto]. }
+    now rewrite Era, Hrs, Hd, Hs, Hc.
+Qed.
+
+Theorem fanout_pruned_lemma : forall (norm : @normaliser RV), norm_list_ok norm ->
+  forall atnums (atcoords : list CT) (radius : radius_arg) (r_sectors : list (list RV)) d s rgrid rotate calls,
+  list_forms d s ->
+  (from_pruned_fanout_with default_params norm atnums atcoords radius r_sectors d s rgrid rotate = Some calls <->
+   length atnums = length atcoords /\ sec_lengths_ok d s (length atcoords) (length r_sectors) /\
+   length calls = length atnums /\
+   forall i a, nth_error atnums i = Some a ->
+     exists rad ra rs dd ss c,
+       nth_error calls i = Some (PrunedCall rad ra rs dd ss c rotate) /\
+       rgrid_for rgrid i a rad /\ radius_for radius (length atcoords) i ra /\
+       nth_error r_sectors i = Some rs /\ sectors_for d s (length atcoords) i dd ss /\
+       nth_error atcoords i = Some c).
+Proof.
+  intros norm [Hn1 Hn2] * Hlf. unfold from_pruned_fanout_with.
   destruct (length atnums =? length atcoords) eqn:El; cbn [negb].
   2:{ apply Nat.eqb_neq in El. split; [discriminate | intros [H _]; contradiction]. }
   apply Nat.eqb_eq in El.
-  destruct s as [|zs|sl].
-  - (* s_sectors is None *)
-    set (d1 := match d with DsInt z => repeat (SvScalar z) (length atcoords) | DsList l => map SvList l end).
-    assert (Ld1 : length d1 = match d with DsInt _ => length atcoords | DsList l => length l end).
-    { subst d1. destruct d; [apply repeat_length | apply map_length]. }
-    rewrite repeat_length.
-    destruct (length d1 =? length r_sectors) eqn:E1; cbn [negb].
-    2:{ apply Nat.eqb_neq in E1. split; [discriminate|]. intros [_ [[H _] _]]. rewrite Ld1 in E1. contradiction. }
-    apply Nat.eqb_eq in E1.
-    destruct (length atcoords =? length r_sectors) eqn:E2; cbn [negb].
-    2:{ apply Nat.eqb_neq in E2. split; [discriminate|]. intros [_ [[_ H] _]]. contradiction. }
-    apply Nat.eqb_eq in E2. rewrite mapM_seq. split.
-    + intros [Hl H]. split; auto. split; [cbn; rewrite <- Ld1; auto|]. split; auto.
-      intros i a Ha. assert (Hi : i < length atnums) by (apply nth_error_Some; congruence).
-      destruct (H i Hi) as [y [Hy Hf]]. rewrite Ha in Hf.
-      destruct (pick_rgrid default_params rgrid i a) eqn:Er; [|discriminate].
-      destruct (nth_error (match radius with RadScalar r => repeat r (length atcoords) | RadSeq l => l end) i) eqn:Era; [|discriminate].
-      destruct (nth_error r_sectors i) eqn:Ers; [|discriminate].
-      destruct (nth_error d1 i) eqn:Ed; [|discriminate].
-      destruct (nth_error (repeat SvNone (length atcoords)) i) eqn:Es; [|discriminate].
-      destruct (nth_error atcoords i) eqn:Ec; [|discriminate].
-      inversion Hf; subst y. do 6 eexists. split; [exact Hy|].
-      apply nth_error_repeat_inv in Es as [Hi' ->].
-      repeat split; auto.
-      * now apply pick_rgrid_iff.
-      * destruct radius; [apply nth_error_repeat_inv in Era as [? ->]; now constructor | now constructor].
-      * subst d1. destruct d.
-        -- apply nth_error_repeat_inv in Ed as [? ->]. now constructor.
-        -- rewrite nth_error_map in Ed. destruct (nth_error l0 i) eqn:E0; inversion Ed; subst. now constructor.
-    + intros [_ [_ [Hl H]]]. split; auto. intros i Hi.
-      destruct (nth_error atnums i) as [a|] eqn:Ha. 2:{ apply nth_error_None in Ha. lia. }
-      destruct (H i a Ha) as (rad & ra & rs & dd & ss & c & Hn & Hr & Hra & Hrs & Hsec & Hc).
-      eexists; split; [exact Hn|]. apply pick_rgrid_iff in Hr. rewrite Hr.
-      assert (Era : nth_error (match radius with RadScalar r => repeat r (length atcoords) | RadSeq l => l end) i = Some ra).
-      { inversion Hra; subst; [now apply nth_error_repeat | auto]. }
-      rewrite Era, Hrs, Hc.
-      inversion Hsec; subst; subst d1.
-      * match goal with E : nth_error dl i = Some _ |- _ => rewrite nth_error_map, E end.
-        cbn. now rewrite nth_error_repeat.
-      * rewrite !nth_error_repeat by auto. reflexivity.
-  - (* s_sectors is an int: len() raises *)
-    split; [discriminate|]. intros [_ [H _]]. destruct H.
-  - (* s_sectors is a list *)
-    rewrite repeat_length, map_length.
-    destruct (length atcoords =? length r_sectors) eqn:E1; cbn [negb].
-    2:{ apply Nat.eqb_neq in E1. split; [discriminate|]. intros [_ [[H _] _]]. contradiction. }
-    apply Nat.eqb_eq in E1.
-    destruct (length sl =? length r_sectors) eqn:E2; cbn [negb].
-    2:{ apply Nat.eqb_neq in E2. split; [discriminate|]. intros [_ [[_ H] _]]. contradiction. }
-    apply Nat.eqb_eq in E2. rewrite mapM_seq. split.
-    + intros [Hl H]. split; auto. split; [cbn; auto|]. split; auto.
-      intros i a Ha. assert (Hi : i < length atnums) by (apply nth_error_Some; congruence).
-      destruct (H i Hi) as [y [Hy Hf]]. rewrite Ha in Hf.
-      destruct (pick_rgrid default_params rgrid i a) eqn:Er; [|discriminate].
-      destruct (nth_error (match radius with RadScalar r => repeat r (length atcoords) | RadSeq l => l end) i) eqn:Era; [|discriminate].
-      destruct (nth_error r_sectors i) eqn:Ers; [|discriminate].
-      destruct (nth_error (repeat SvNone (length atcoords)) i) eqn:Ed; [|discriminate].
-      destruct (nth_error (map SvList sl) i) eqn:Es; [|discriminate].
-      destruct (nth_error atcoords i) eqn:Ec; [|discriminate].
-      inversion Hf; subst y. do 6 eexists. split; [exact Hy|].
-      apply nth_error_repeat_inv in Ed as [Hi' ->].
-      repeat split; auto.
-      * now apply pick_rgrid_iff.
-      * destruct radius; [apply nth_error_repeat_inv in Era as [? ->]; now constructor | now constructor].
-      * rewrite nth_error_map in Es. destruct (nth_error sl i) eqn:E0; inversion Es; subst. now constructor.
-    + intros [_ [_ [Hl H]]]. split; auto. intros i Hi.
-      destruct (nth_error atnums i) as [a|] eqn:Ha. 2:{ apply nth_error_None in Ha. lia. }
-      destruct (H i a Ha) as (rad & ra & rs & dd & ss & c & Hn & Hr & Hra & Hrs & Hsec & Hc).
-      eexists; split; [exact Hn|]. apply pick_rgrid_iff in Hr. rewrite Hr.
-      assert (Era : nth_error (match radius with RadScalar r => repeat r (length atcoords) | RadSeq l => l end) i = Some ra).
-      { inversion Hra; subst; [now apply nth_error_repeat | auto]. }
-      rewrite Era, Hrs, Hc.
-      inversion Hsec; subst.
-      match goal with E : nth_error sl i = Some _ |- _ => rewrite nth_error_map, E end.
-      cbn. now rewrite nth_error_repeat.
+  destruct s as [|zs|sl]; cbn in Hlf.
+  - destruct Hlf as [dl ->]. cbn [arg_of_d arg_of_s]. rewrite Hn1. cbn [fst snd].
+    rewrite (pruned_core_lemma _ _ _ _ _ _ _ _ _ El). rewrite map_length, repeat_length. cbn [sec_lengths_ok]. split.
+    + intros (H1 & H2 & Hl & H). repeat split; auto.
+      intros i a Ha. destruct (H i a Ha) as (rad & ra & rs & dd & ss & c & Hc & Hr & Hra & Hrs & Hd & Hs & Hcc).
+      apply nth_error_repeat_inv in Hs as [Hi ->].
+      rewrite nth_error_map in Hd. destruct (nth_error dl i) eqn:E0; inversion Hd; subst.
+      do 6 eexists. split; [exact Hc|]. repeat split; auto. now constructor.
+    + intros (_ & [H1 H2] & Hl & H). repeat split; auto.
+      intros i a Ha. destruct (H i a Ha) as (rad & ra & rs & dd & ss & c & Hc & Hr & Hra & Hrs & Hsec & Hcc).
+      inversion Hsec; subst. do 6 eexists. split; [exact Hc|]. repeat split; auto.
+      * rewrite nth_error_map. match goal with E : nth_error dl i = Some _ |- _ => now rewrite E end.
+      * now apply nth_error_repeat.
+  - destruct Hlf.
+  - cbn [arg_of_s]. rewrite Hn2. cbn [fst snd].
+    rewrite (pruned_core_lemma _ _ _ _ _ _ _ _ _ El). rewrite map_length, repeat_length. cbn [sec_lengths_ok]. split.
+    + intros (H1 & H2 & Hl & H). repeat split; auto.
+      intros i a Ha. destruct (H i a Ha) as (rad & ra & rs & dd & ss & c & Hc & Hr & Hra & Hrs & Hd & Hs & Hcc).
+      apply nth_error_repeat_inv in Hd as [Hi ->].
+      rewrite nth_error_map in Hs. destruct (nth_error sl i) eqn:E0; inversion Hs; subst.
+      do 6 eexists. split; [exact Hc|]. repeat split; auto. now constructor.
+    + intros (_ & [H1 H2] & Hl & H). repeat split; auto.
+      intros i a Ha. destruct (H i a Ha) as (rad & ra & rs & dd & ss & c & Hc & Hr & Hra & Hrs & Hsec & Hcc).
+      inversion Hsec; subst. do 6 eexists. split; [exact Hc|]. repeat split; auto.
+      * now apply nth_error_repeat.
+      * rewrite nth_error_map. match goal with E : nth_error sl i = Some _ |- _ => now rewrite E end.
 Qed.
 
-(* on the list forms the code's fan-out is the documented one *)
-Theorem fanout_pruned_documented_lemma : forall atnums (atcoords : list CT) (radius : radius_arg) (r_sectors : list (list RV)) dl s (rgrid : rgrid_arg) rotate,
-  (forall z, s <> SsInt z) ->
-  from_pruned_fanout default_params atnums atcoords radius r_sectors (DsList dl) s rgrid rotate =
-  from_pruned_documented default_params atnums atcoords radius r_sectors (DsList dl) s rgrid rotate.
+Lemma norm_documented_list_ok : norm_list_ok (@norm_documented RV).
+Proof. split; intros; [reflexivity | destruct d; reflexivity]. Qed.
+
+(* two normalisers that agree on the arguments give the same fan-out *)
+Lemma fanout_with_ext : forall (n1 n2 : @normaliser RV) atnums (atcoords : list CT) (radius : radius_arg) (r_sectors : list (list RV)) d s (rgrid : rgrid_arg) rotate,
+  n1 (length atcoords) r_sectors (arg_of_d d) (arg_of_s s) = n2 (length atcoords) r_sectors (arg_of_d d) (arg_of_s s) ->
+  from_pruned_fanout_with default_params n1 atnums atcoords radius r_sectors d s rgrid rotate =
+  from_pruned_fanout_with default_params n2 atnums atcoords radius r_sectors d s rgrid rotate.
+Proof. intros * H. unfold from_pruned_fanout_with. now rewrite H. Qed.
+
+(* on the list forms the fan-out is the documented one *)
+Theorem fanout_pruned_documented_lemma : forall (norm : @normaliser RV), norm_list_ok norm ->
+  forall atnums (atcoords : list CT) (radius : radius_arg) (r_sectors : list (list RV)) d s (rgrid : rgrid_arg) rotate,
+  list_forms d s ->
+  from_pruned_fanout_with default_params norm atnums atcoords radius r_sectors d s rgrid rotate =
+  from_pruned_documented default_params atnums atcoords radius r_sectors d s rgrid rotate.
 Proof.
-  intros. unfold from_pruned_fanout, from_pruned_documented.
-  destruct s as [|z|sl]; [reflexivity | exfalso; now apply (H z) | reflexivity].
+  intros norm [H1 H2] * Hlf. unfold from_pruned_documented. apply fanout_with_ext.
+  destruct norm_documented_list_ok as [D1 D2].
+  destruct s as [|z|sl]; cbn in Hlf.
+  - destruct Hlf as [dl ->]. cbn [arg_of_d arg_of_s]. now rewrite H1, D1.
+  - destruct Hlf.
+  - cbn [arg_of_s]. now rewrite H2, D2.
 Qed.
 
 End FanoutProofs.
 
-(* the documented integer forms: every atom receives a bare number (which AtomGrid.from_pruned does not
-   take), or nothing at all, although the documented meaning is a well-formed call *)
+(* the witness arguments of the integer-sector statements (C07_proofs_pruned.v / C07_refuted_pruned.v) *)
 Definition ex_rs : list (list Z) := [[1%Z]; [1%Z]].
 Definition ex_dp (a : Z) : option unit := None.
-
-Theorem fanout_pruned_int_refuted_lemma :
-  (exists calls,
-     from_pruned_fanout ex_dp [1%Z; 8%Z] [10%Z; 20%Z] (RadScalar 5%Z) ex_rs (DsInt 50) SsNone (RgOne 7%Z) 37%Z = Some calls /\
-     forallb pruned_call_ok calls = false) /\
-  from_pruned_fanout ex_dp [1%Z; 8%Z] [10%Z; 20%Z] (RadScalar 5%Z) ex_rs (DsInt 50) (SsInt 6) (RgOne 7%Z) 37%Z = None /\
-  (exists calls,
-     from_pruned_documented ex_dp [1%Z; 8%Z] [10%Z; 20%Z] (RadScalar 5%Z) ex_rs (DsInt 50) SsNone (RgOne 7%Z) 37%Z = Some calls /\
-     forallb pruned_call_ok calls = true) /\
-  (exists calls,
-     from_pruned_documented ex_dp [1%Z; 8%Z] [10%Z; 20%Z] (RadScalar 5%Z) ex_rs (DsInt 50) (SsInt 6) (RgOne 7%Z) 37%Z = Some calls /\
-     forallb pruned_call_ok calls = true).
-Proof.
-  repeat split; try (eexists; split; [vm_compute; reflexivity | vm_compute; reflexivity]).
-Qed.
 
 (* ================================================================== constructors = by hand *)
 Section ConstructorProofs.
@@ -900,9 +901,9 @@ Theorem constructors_by_hand_lemma :
      from_size_fanout default_params atnums atcoords size rgrid rotate = Some calls ->
      mol_from_size o default_params becke3 build_size atnums atcoords size rgrid aim rotate store =
      by_hand o becke3 build_size atnums calls aim store) /\
-  (forall atnums atcoords radius r_sectors d s rgrid aim rotate store calls,
-     from_pruned_fanout default_params atnums atcoords radius r_sectors d s rgrid rotate = Some calls ->
-     mol_from_pruned o default_params becke3 build_pruned atnums atcoords radius r_sectors d s rgrid aim rotate store =
+  (forall norm atnums atcoords radius r_sectors d s rgrid aim rotate store calls,
+     from_pruned_fanout_with default_params norm atnums atcoords radius r_sectors d s rgrid rotate = Some calls ->
+     mol_from_pruned o default_params becke3 build_pruned norm atnums atcoords radius r_sectors d s rgrid aim rotate store =
      by_hand o becke3 build_pruned atnums calls aim store) /\
   (forall CALL (build : CALL -> option (@atgrid T)) atnums calls aim store gs,
      mapM build calls = Some gs ->
@@ -984,11 +985,11 @@ Example ex_fanout_size :
 Proof. vm_compute. repeat split. Qed.
 
 Example ex_fanout_pruned :
-  from_pruned_fanout ex_params [8; 1] [10; 20] (RadSeq [51; 52]) [[1; 2]; [3]] (DsList [[3; 5; 7]; [5; 3]]) SsNone (RgDict [(1, 71); (8, 78)]) 37
+  from_pruned_documented ex_params [8; 1] [10; 20] (RadSeq [51; 52]) [[1; 2]; [3]] (DsList [[3; 5; 7]; [5; 3]]) SsNone (RgDict [(1, 71); (8, 78)]) 37
   = Some [PrunedCall (UseGiven 78) 51 [1; 2] (SvList [3; 5; 7]) SvNone 10 37;
           PrunedCall (UseGiven 71) 52 [3] (SvList [5; 3]) SvNone 20 37] /\
-  from_pruned_fanout ex_params [8; 1] [10; 20] (RadScalar 5) [[1; 2]; [3]] (DsInt 50) (SsList [[6; 14; 26]; [14; 6]]) (RgOne 7) 0
+  from_pruned_documented ex_params [8; 1] [10; 20] (RadScalar 5) [[1; 2]; [3]] (DsInt 50) (SsList [[6; 14; 26]; [14; 6]]) (RgOne 7) 0
   = Some [PrunedCall (UseGiven 7) 5 [1; 2] SvNone (SvList [6; 14; 26]) 10 0;
           PrunedCall (UseGiven 7) 5 [3] SvNone (SvList [14; 6]) 20 0] /\
-  from_pruned_fanout ex_params [8; 1] [10; 20] (RadScalar 5) [[1; 2]] (DsList [[3; 5; 7]]) SsNone (RgOne 7) 0 = None.
+  from_pruned_documented ex_params [8; 1] [10; 20] (RadScalar 5) [[1; 2]] (DsList [[3; 5; 7]]) SsNone (RgOne 7) 0 = None.
 Proof. vm_compute. repeat split. Qed.
